@@ -288,6 +288,7 @@ type access struct {
 type fieldInfo struct {
 	name, kind, region string
 	obj                *types.Var
+	declDepth          int // closures mode: number of function literals around the declaration
 }
 
 type accessCfg struct {
@@ -370,6 +371,7 @@ type analyzer struct {
 	ngo        int
 
 	closureCtors map[string]bool
+	perCall      map[string]bool // closures mode: captured variables declared inside a per-evaluation literal
 }
 
 type callInfo struct{ locked, unlocked int }
@@ -408,7 +410,11 @@ func (a *analyzer) emit(fi *fieldInfo, obj string, write, atomic bool, how strin
 	if strings.HasPrefix(how, "escape:") {
 		esc = strings.SplitN(strings.SplitN(how[len("escape:"):], ":", 2)[0], "@", 2)[0]
 	}
-	a.out = append(a.out, access{fn, fi.name, fi.region, obj, write, atomic, lock, mutex, esc, strings.Count(a.fn, "$"), how, append([]string(nil), a.ord...), a.pos(n)})
+	depth := strings.Count(a.fn, "$") - fi.declDepth
+	if depth < 0 {
+		depth = 0
+	}
+	a.out = append(a.out, access{fn, fi.name, fi.region, obj, write, atomic, lock, mutex, esc, depth, how, append([]string(nil), a.ord...), a.pos(n)})
 }
 
 func (a *analyzer) emitSrcs(ss []src, write bool, how string, n ast.Node, unlocked bool) {
@@ -629,7 +635,12 @@ func (a *analyzer) walkAddr(x ast.Expr, at ast.Node) []src {
 			if se, ok := v.(*ast.SelectorExpr); ok {
 				a.walkBase(se.X)
 			}
-			if fi.kind == "mutex" || fi.kind == "sync" || fi.kind == "atomicval" {
+			if fi.kind == "atomicval" {
+				// a pointer to an atomic value: whoever holds it can only go through its (atomic) methods
+				a.emit(fi, "var", true, true, "atomic:addr", at, false)
+				return nil
+			}
+			if fi.kind == "mutex" || fi.kind == "sync" {
 				return nil
 			}
 			// the address of a shared variable leaves the expression: whoever gets it may write it, unlocked
@@ -1016,6 +1027,13 @@ func (a *analyzer) walkArgs(call *ast.CallExpr, fn *types.Func) {
 // walkMethodCall: R.M(args)
 func (a *analyzer) walkMethodCall(call *ast.CallExpr, se *ast.SelectorExpr, fn *types.Func) {
 	rt := a.typeOf(se.X)
+	if p, _ := namedOf(rt); p == "sync/atomic" {
+		// a method of an atomic type (atomic.Value, atomic.Int64 …): an atomic operation on the variable
+		if fi := a.fieldOf(se.X); fi != nil {
+			a.emit(fi, "var", !strings.HasPrefix(se.Sel.Name, "Load"), true, "atomic:"+se.Sel.Name, call, false)
+		}
+		return
+	}
 	if a.isSyncType(rt) {
 		// a synchronisation object: Lock/Unlock are handled at statement level, WaitGroup/Once calls are
 		// synchronising operations, not data accesses
@@ -1660,7 +1678,7 @@ func structNames(tp *tpkg) []string {
 
 func newAnalyzer(w *typeWorld, cfg accessCfg) *analyzer {
 	return &analyzer{w: w, tp: w.pkgs[cfg.dir], cfg: cfg, byObj: map[*types.Var]*fieldInfo{}, alias: map[*types.Var]map[*fieldInfo]string{},
-		calls: map[string]*callInfo{}, assumed: map[string]bool{}, mutMemo: map[string]int{}, closureCtors: map[string]bool{}}
+		calls: map[string]*callInfo{}, assumed: map[string]bool{}, mutMemo: map[string]int{}, closureCtors: map[string]bool{}, perCall: map[string]bool{}}
 }
 
 func flowName(tp *tpkg, fd *ast.FuncDecl, own map[string]bool) string {
@@ -1726,8 +1744,14 @@ func (a *analyzer) collect(ctors []string) bool {
 	case "locals":
 		return a.collectLocals()
 	case "closures":
-		// variables of a top-level function that one of its function literals mentions: the literal (a compiled
-		// expression stage, a callback) outlives the call and is run by every worker
+		// variables that a function literal shares with the code that made it: the literal (a compiled expression
+		// stage, a callback) outlives the call and is run by every worker.  A variable is tracked when it is declared
+		// in a top-level function's body OR in a literal nested in it (a builder returned by a factory, like
+		// funcfile's keyBuilderToFunction) and mentioned by a literal nested deeper than its declaration – unless the
+		// declaration sits inside a per-evaluation literal (one that takes an expression context: a stage): such a
+		// variable is made afresh by every evaluation and the literals that see it run in that evaluation's goroutine
+		// (no `go` statement in these packages: `spawns`); those are listed as per-call locals.
+		// `depth` of an access is counted from the declaring literal (0 = the code that runs once per build).
 		for _, f := range tp.files {
 			for _, d := range f.Decls {
 				fd, ok := d.(*ast.FuncDecl)
@@ -1741,10 +1765,22 @@ func (a *analyzer) collect(ctors []string) bool {
 					}
 					return true
 				})
-				inLit := func(p token.Pos) bool {
-					for _, fl := range lits {
+				// enclosing literals of a position, outermost first
+				chain := func(p token.Pos) []*ast.FuncLit {
+					var out []*ast.FuncLit
+					for _, fl := range lits { // ast.Inspect is pre-order: outer literals come first
 						if fl.Pos() <= p && p <= fl.End() {
-							return true
+							out = append(out, fl)
+						}
+					}
+					return out
+				}
+				isEval := func(fl *ast.FuncLit) bool {
+					for _, p := range fl.Type.Params.List {
+						if t := tp.info.TypeOf(p.Type); t != nil {
+							if _, n := namedOf(t); strings.HasSuffix(n, "Context") {
+								return true
+							}
 						}
 					}
 					return false
@@ -1759,14 +1795,35 @@ func (a *analyzer) collect(ctors []string) bool {
 						if !ok || v.IsField() || v.Pkg() != tp.pkg || v.Parent() == tp.pkg.Scope() {
 							return true
 						}
-						if v.Pos() < fd.Pos() || v.Pos() > fd.End() || inLit(v.Pos()) {
-							return true // declared elsewhere, or inside a literal (one instance per call of that literal)
+						if v.Pos() < fd.Pos() || v.Pos() > fd.End() {
+							return true // declared elsewhere
+						}
+						dc, uc := chain(v.Pos()), chain(id.Pos())
+						if len(uc) <= len(dc) {
+							return true // used by the code that declares it: a plain local of that invocation
+						}
+						name := flowName(tp, fd, own) + "." + v.Name()
+						perEval := false
+						for _, l := range dc {
+							if isEval(l) {
+								perEval = true
+							}
+						}
+						if perEval {
+							a.perCall[name] = true
+							return true
 						}
 						if a.byObj[v] == nil {
+							for _, o := range a.fields {
+								if o.name == name {
+									name = fmt.Sprintf("%s#%d", name, a.w.c.fset.Position(v.Pos()).Line)
+								}
+							}
 							a.addField(v)
 							fi := a.byObj[v]
-							fi.name = flowName(tp, fd, own) + "." + v.Name()
+							fi.name = name
 							fi.region = fi.name
+							fi.declDepth = len(dc)
 							a.closureCtors[flowName(tp, fd, own)] = true
 						}
 						return true
@@ -1820,7 +1877,7 @@ func (a *analyzer) collect(ctors []string) bool {
 			ac.how += "(lock inherited from every call site)"
 		}
 	}
-	return len(a.fields) > 0
+	return len(a.fields) > 0 || a.cfg.mode == "closures" // a package whose literals capture nothing has an empty table
 }
 
 // collectLocals: the variables of one function that its goroutine closures share with its body are
@@ -2141,7 +2198,7 @@ func init() {
 		}()
 		var sb strings.Builder
 		sb.WriteString("namespace Rare.Gen.Access\n\n")
-		sb.WriteString("structure Acc where\n  fn : String\n  field : String\n  region : String  -- referent region: fields whose referents may overlap share one\n  obj : String     -- \"var\": the field itself; \"ref\": what a reference-typed field refers to\n  write : Bool\n  atomic : Bool\n  lock : String    -- \"\" none, \"W\" exclusive, \"R\" shared\n  mutex : String   -- which mutex\n  esc : String     -- how the reference leaves the function: \"\" (it does not) return arg store global send go addr methodvalue\n  depth : Nat      -- nesting depth of the function literal making the access (0: the declared function's own body)\n  how : String     -- direct / alias (\"@x\") / append / call:… / escape:…\n  ord : List String  -- roles this access is ordered with (go statement, hand-shake)\n  line : Nat\n  deriving DecidableEq, Repr\n\n")
+		sb.WriteString("structure Acc where\n  fn : String\n  field : String\n  region : String  -- referent region: fields whose referents may overlap share one\n  obj : String     -- \"var\": the field itself; \"ref\": what a reference-typed field refers to\n  write : Bool\n  atomic : Bool\n  lock : String    -- \"\" none, \"W\" exclusive, \"R\" shared\n  mutex : String   -- which mutex\n  esc : String     -- how the reference leaves the function: \"\" (it does not) return arg store global send go addr methodvalue\n  depth : Nat      -- nesting depth of the function literal making the access, counted from the code that declares the variable (0: that code itself – the declared function's own body, or the builder literal)\n  how : String     -- direct / alias (\"@x\") / append / call:… / escape:…\n  ord : List String  -- roles this access is ordered with (go statement, hand-shake)\n  line : Nat\n  deriving DecidableEq, Repr\n\n")
 		sb.WriteString("structure Fld where\n  name : String\n  kind : String    -- value slice map pointer chan func iface mutex sync atomicval\n  deriving DecidableEq, Repr\n\n")
 		w := c.world(accessDirs)
 		type cfgC struct {
@@ -2164,6 +2221,11 @@ func init() {
 			{accessCfg{lean: "stageState", dir: "pkg/expressions/stdlib", mode: "closures"}, nil, "variables the compiled-expression stages of pkg/expressions/stdlib capture (one closure, run by every worker)"},
 			{accessCfg{lean: "stageStateFuncfile", dir: "pkg/expressions/funcfile", mode: "closures"}, nil, "variables the stages of pkg/expressions/funcfile capture"},
 			{accessCfg{lean: "stdlibGlobals", dir: "pkg/expressions/stdlib", mode: "globals"}, []string{"init"}, "package state of pkg/expressions/stdlib (every worker)"},
+			{accessCfg{lean: "stageStateExpressions", dir: "pkg/expressions", mode: "closures"}, nil, "variables the stages made by pkg/expressions itself capture (joined argument stages, literals, static-analysis wrappers)"},
+			{accessCfg{lean: "stageStateStdmath", dir: "pkg/expressions/stdmath", mode: "closures"}, nil, "variables function literals of pkg/expressions/stdmath capture"},
+			{accessCfg{lean: "expressionsGlobals", dir: "pkg/expressions", mode: "globals"}, []string{"init"}, "package state of pkg/expressions (every worker)"},
+			{accessCfg{lean: "stdmathGlobals", dir: "pkg/expressions/stdmath", mode: "globals"}, []string{"init"}, "package state of pkg/expressions/stdmath (every worker evaluating a {! …} stage)"},
+			{accessCfg{lean: "compiledKeyBuilder", dir: "pkg/expressions", mode: "struct", typ: "CompiledKeyBuilder"}, []string{"KeyBuilder.Compile", "optimize"}, "CompiledKeyBuilder (the compiled expression every worker evaluates)"},
 			{accessCfg{lean: "aggregation", dir: "pkg/aggregation", mode: "monitor", typ: "*"}, nil, "aggregator state (monitor: only entered under RunAggregationLoop's outputMutex or after the ticker ended)"},
 			{accessCfg{lean: "multiterm", dir: "pkg/multiterm", mode: "monitor", typ: "*"}, nil, "terminal writers (monitor, as above)"},
 			{accessCfg{lean: "termrenderers", dir: "pkg/multiterm/termrenderers", mode: "monitor", typ: "*"}, nil, "renderers (monitor, as above)"},
@@ -2202,6 +2264,14 @@ func init() {
 			sort.Strings(cc)
 			ctorsOut = append(ctorsOut, cc...)
 			fmt.Fprintf(&sb, "/-- constructors of %s: they run before the object is shared (up to their first `go` statement) -/\ndef %sCtors : List String := %s\n\n", cfg.lean, cfg.lean, leanStrList(ctorsOut))
+			if cfg.mode == "closures" {
+				var pc []string
+				for k := range a.perCall {
+					pc = append(pc, k)
+				}
+				sort.Strings(pc)
+				fmt.Fprintf(&sb, "/-- captured variables of %s that are declared inside a per-evaluation literal (a stage): made afresh by every\n    evaluation, seen only by literals that run in that evaluation's goroutine -/\ndef %sPerCall : List String := %s\n\n", cfg.dir, cfg.lean, leanStrList(pc))
+			}
 			for k := range a.assumed {
 				assumed = append(assumed, cfg.lean+":"+k)
 			}
